@@ -262,7 +262,10 @@ class Counter(HashTable):
                The set of integers to count
         """
         t = time.time()
-        keys = np.asanyarray(keys, dtype=self._key_dtype)
+        keys = np.asanyarray(keys)
+        if keys.dtype != self._key_dtype:
+            converted = keys.astype(self._key_dtype)
+            keys = converted[converted == keys]  # a sample that does not fit the key type is not a key
         hashes = self._get_hash(keys)
         view = self._keys._shape.view(hashes)
         mask = np.flatnonzero(view.lengths)
